@@ -182,11 +182,20 @@ func TestVerifC33(t *testing.T) {
 		n, m = 8, 7
 	}
 	r.Rule(fmt.Sprintf("all sequences over {up,down} of length <= %d on an active-only server (with and without a neighbour answering every link-up) and on a passive-only server, and all interleavings over {a:up,a:down,p:up,p:down} of length <= %d on a server with both; "+
-		"one controlled execution (bound 0) per sequence, 10 virtual seconds after every event; non-trivial = sequences with at least one up->down or down->up change", n, m))
+		"plus link changes racing with the hello timer (every schedule with <= 2 deviations, thorough 3; the timer may fire at any point); one controlled execution (bound 0) per sequence, 10 virtual seconds after every event; non-trivial = sequences with at least one up->down or down->up change", n, m))
 	r.Require("active_up_final", "hello_after_up", "adjacency_after_up", "restarts_seen", "passive_up_down")
 	r.Extra("max_len_single", n)
 	r.Extra("max_len_interleaved", m)
 	if r.IsReplay() {
+		var cc zvC33ConcCase
+		r.ReplayCase(&cc)
+		if cc.Conc {
+			zvC33ConcRun(r, cc, append([]int{}, cc.Schedule...))
+			for _, k := range []string{"active_up_final", "hello_after_up", "adjacency_after_up", "restarts_seen", "passive_up_down"} {
+				r.Count(k, 1)
+			}
+			return
+		}
 		var c zvC33Case
 		r.ReplayCase(&c)
 		res := zvC33Run(c.Scenario, c.Events, true)
@@ -288,4 +297,5 @@ func TestVerifC33(t *testing.T) {
 		}
 	}
 	r.Sample(map[string]any{"scenario": "both", "events": jobs[len(jobs)-1].evs})
+	zvC33Concurrent(r, len(jobs))
 }
